@@ -122,4 +122,21 @@ def cppReaderMethods (step : List Nat) : List (List Nat) :=
   let p := pascal step
   [str "Read" ++ p, str "Read" ++ p ++ str "Impl"]
 
+/-! ### the member-name rules of the validator (`validateRecordFieldNames` / `validateProtocolSequenceNames`)
+
+a name must match `^[a-z][a-zA-Z0-9]{0,63}$`, must not repeat an earlier name of the same record / protocol, and its snake_case form must
+not repeat the snake_case form of an earlier one (454b119). `membersOk` = no diagnostic from the loop over one record's fields and
+computed fields (the same two tables), or over one protocol's steps. -/
+
+/-- `memberNameRegex` -/
+def memberName : List Nat → Bool
+  | [] => false
+  | c :: r => isLo c && r.all isAlnum && decide (r.length ≤ 63)
+
+/-- no diagnostic from the loop: `seenNames` = `fields`, `seenSnake` = the keys of `snakeCased` -/
+def membersOk : List (List Nat) → List (List Nat) → List (List Nat) → Bool
+  | [], _, _ => true
+  | n :: rest, seenNames, seenSnake =>
+    memberName n && !seenNames.contains n && !seenSnake.contains (snake n) && membersOk rest (n :: seenNames) (snake n :: seenSnake)
+
 end Yardl.Case
